@@ -215,15 +215,13 @@ def decRec (f : TreeFmt) (bs : Bytes) : Rec Int Nat :=
     key := f.decKey (slice bs f.keyOff f.key.size),
     val := leDec (slice bs f.valOff f.val.size) }
 
-/-- Split the bytes after the header into records (iterative). -/
-def chunks (n : Nat) (bs : Bytes) : List Bytes := Id.run do
-  if n = 0 then return []
-  let arr := bs.toArray
-  let cnt := arr.size / n
-  let mut out : Array Bytes := Array.mkEmpty cnt
-  for j in [0:cnt] do
-    out := out.push (arr.extract (j * n) (j * n + n)).toList
-  return out.toList
+/-- Split the bytes after the header into records of `n` bytes (array slicing, so large buffers
+    stay linear). -/
+def chunks (n : Nat) (bs : Bytes) : List Bytes :=
+  if n = 0 then []
+  else
+    let arr := bs.toArray
+    (List.range (arr.size / n)).map fun j => (arr.extract (j * n) (j * n + n)).toList
 
 /-- Parse a buffer; `none` if its size is not header + whole records. The
     parsed image re-encodes to exactly the same bytes or is rejected, so that
